@@ -81,9 +81,24 @@ pub mod q {
     regroup!(u32_2_2, u32, U2, 2, U2, 2, 8);
     regroup!(unit_2_2, (), U2, 2, U2, 2, 8);
     regroup!(u8_4_1, u8, U4, 4, U1, 1, 8);
-    regroup_empty!(u8_0_3, u8, U0, 0, U3, 3, 6);
-    regroup_empty!(u8_2_0, u8, U2, 2, U0, 0, 6);
-    regroup_empty!(u8_0_0, u8, U0, 0, U0, 0, 6);
+}
+/// empty shapes (N = 0 and / or M = 0): "for all N, M" includes them - that these calls type-check at all is part of the property, so they
+/// live behind a cargo feature of their own (a rejection by the compiler is then reported for C11 instead of breaking every harness)
+#[cfg(feature = "c11")]
+pub mod degenerate {
+    pub mod q {
+        use crate::common::*;
+        regroup_empty!(u8_0_3, u8, U0, 0, U3, 3, 6);
+        regroup_empty!(u8_2_0, u8, U2, 2, U0, 0, 6);
+        regroup_empty!(u8_0_0, u8, U0, 0, U0, 0, 6);
+    }
+    pub mod t {
+        use crate::common::*;
+        regroup_empty!(unit_0_2, (), U0, 0, U2, 2, 6);
+        regroup_empty!(u32_3_0, u32, U3, 3, U0, 0, 6);
+        regroup_empty!(u8_0_1, u8, U0, 0, U1, 1, 6);
+        regroup_empty!(u8_1_0, u8, U1, 1, U0, 0, 6);
+    }
 }
 pub mod t {
     use crate::common::*;
@@ -100,6 +115,4 @@ pub mod t {
     regroup!(u32_3_2, u32, U3, 3, U2, 2, 10);
     regroup!(pad_2_3, (u8, u16), U2, 2, U3, 3, 10);
     regroup!(unit_3_3, (), U3, 3, U3, 3, 13);
-    regroup_empty!(unit_0_2, (), U0, 0, U2, 2, 6);
-    regroup_empty!(u32_3_0, u32, U3, 3, U0, 0, 6);
 }
